@@ -67,7 +67,7 @@ def conditional_gr(
         Natom = condition.sum()
         logger.info(f"Calculate g(r) for {Natom} selected atoms")
         conj_condition = condition.copy()
-    elif condition.dtype == "complex128":
+    elif np.iscomplexobj(condition):
         logger.info(
             "Calculate spatial correlation gA of complex-number physical quantity 'A'")
         conj_condition = np.conj(condition)
